@@ -15,7 +15,7 @@ TDirect == /\ IsEvent("Direct") /\ pc = "recv"
            /\ \/ Verdict = "dontcare"
               \/ Verdict = "fail" /\ E.v = "fail"
               \/ /\ Verdict = "ok" /\ E.v = "ok"
-                 /\ \A x \in DOMAIN ExpectedRec : (ExpectedRec[x] = "CTX" \/ (ctx.mode = "excl" /\ ctx.name = x) \/ ExpectedRec[x] = E.rec[x])
+                 /\ \A x \in DOMAIN ExpectedRec : (ExpectedRec[x] = "CTX" \/ (ctx.xname = x) \/ ExpectedRec[x] = E.rec[x])
                  /\ E.va = ExpectedVa /\ E.kw = ExpectedKw
            /\ UNCHANGED vars
 \* C17: the parameter names (and the required ones) the generated OpenAPI request schema / OpenRPC params list for this method
